@@ -36,7 +36,17 @@ def _canon(v, depth: int = 0):
         return ["re", v.pattern, v.flags]
     if isinstance(v, (types.FunctionType, types.BuiltinFunctionType, type, types.ModuleType)):
         return ["obj", type(v).__name__, getattr(v, "__qualname__", getattr(v, "__name__", "?"))]
-    return ["obj", type(v).__name__]
+    # any other object (counters, iterators, instances of the transpiler's own classes): its repr with addresses removed
+    # (itertools.count, deque iterators ... show their position there) and, where it has one, its instance dictionary
+    try:
+        shown = re.sub(r"0x[0-9a-fA-F]+", "0x", repr(v))[:400]
+    except Exception:
+        shown = "?"
+    inner = None
+    d = getattr(v, "__dict__", None)
+    if isinstance(d, dict) and depth <= 4:
+        inner = _canon({str(a): b for a, b in d.items()}, depth + 1)
+    return ["obj", type(v).__name__, shown, inner]
 
 
 def snapshot() -> dict:
